@@ -442,9 +442,10 @@ class WrapperMixin(object):
         Uses brief, description, and return from docs.
         """
         output.append(self.doxygen_begin)
-        # A tab in the user's text is not a place to continue the line
-        # (the continuation of a Fortran comment is not a comment).
-        docs = {key: value.replace("\t", " ") if isinstance(value, str) else value
+        # A tab or form feed in the user's text is not a place to continue
+        # the line (the continuation of a Fortran comment is not a comment).
+        docs = {key: value.replace("\t", " ").replace("\f", " ")
+                if isinstance(value, str) else value
                 for key, value in docs.items()}
         if "brief" in docs:
             # Every line of the text needs the comment prefix.
